@@ -98,6 +98,7 @@ def run_task(task):
     out = {"subcheck": scname, "shard": shard, "evaluations": 0, "rejected": 0, "nontrivial_hashes": [],
            "labels": {}, "samples": [], "excluded": {}, "suppressed_hits": {}, "violations": [], "error": None,
            "inconclusive": False, "wall_s": 0.0, "exhaustive": False}
+    os.environ["PBT_TIER"] = tier
     try:
         mod = _load_module(prop)
         from pbt.core import case_hash, jsonable
@@ -142,10 +143,11 @@ def run_task(task):
                 if v is not None:
                     out["violations"].append({"clause": v.clause, "msg": v.msg[:2000], "case": jsonable(case)})
                     suppressed.add(v.clause)
-                    if len(out["violations"]) >= MAX_ROUNDS:
+                    if len(out["violations"]) >= (sc.max_rounds or MAX_ROUNDS):
                         break
         else:
-            for rnd in range(MAX_ROUNDS):
+            shrink_budget = sc.shrink_s if sc.shrink_s is not None else SHRINK_BUDGET_S[tier]
+            for rnd in range(sc.max_rounds or MAX_ROUNDS):
                 fail = {"case": None, "v": None, "t": None, "clause": None}
 
                 def body(case):
@@ -153,7 +155,7 @@ def run_task(task):
                     if now > budget_t:
                         out["inconclusive"] = True
                         return
-                    if fail["t"] is not None and now - fail["t"] > SHRINK_BUDGET_S[tier]:
+                    if fail["t"] is not None and now - fail["t"] > shrink_budget:
                         return   # stop shrinking: everything "passes" from now on; best failing case is kept below
                     ctx, v, rej = run_case(sc, case, known_keys, suppressed)
                     if rej:
@@ -220,7 +222,7 @@ def _repo_state():
 
 def write_replay(prop, scname, viol, repo_state):
     from pbt.core import case_hash
-    d = os.path.join(HERE, "replays", prop)
+    d = os.path.join(os.environ.get("PBT_REPLAY_DIR") or os.path.join(HERE, "replays"), prop)
     os.makedirs(d, exist_ok=True)
     safe_clause = "".join(c if c.isalnum() else "_" for c in viol["clause"])[:40]
     path = os.path.join(d, "%s-%s-%s.json" % (scname, safe_clause, case_hash(viol["case"])[:12]))
@@ -268,6 +270,7 @@ def main(argv=None):
     findings = [f for f in _load_known() if f["property"] == prop]
     known_keys = sorted(f["key"] for f in findings if f["status"] == "known")
 
+    os.environ["PBT_TIER"] = args.tier
     # ---- single replay -----------------------------------------------------------------------------------
     if args.replay:
         rec, v = replay_file(prop, mod, args.replay, ())
